@@ -355,7 +355,8 @@ def run_pipeline(tier, seed, log):
         key = hashlib.sha1(json.dumps([j["cls"], j["script"]], sort_keys=True).encode()).hexdigest()
         for h in v["hit"]:
             res["hits"][h] = res["hits"].get(h, 0) + 1
-            pk.setdefault(h.split(".")[0], set()).add(key)
+            if h not in ("C16.name", "C18.one", "C18.escape", "C18.quiet", "C17.state"):     # exercised by every script
+                pk.setdefault(h.split(".")[0], set()).add(key)
         for x in v["viol"]:
             e = {"c": x["c"], "kf": "", "at": x["at"], "ent": x["ent"], "driver": j["kind"], "key": key}
             if seen.get(x["c"], 0) < 3:
